@@ -391,115 +391,115 @@ theorem C10_nonsticky_zero (m : Val) (es : List (Option Val)) :
 /-- qualifying event of `GreenAdminDatabaseUnreachablePenalty`: the agent's latest request is the database-client
 execute on the configured node; fresh value ±1 by the response status -/
 def greenDbEvent (it : Item) (node : Name) : Option Val :=
-  if it.request = dbClientRequest node then some (if it.ok then 1 else -1) else none
+  if it.requestIs (dbClientRequest node) then some (if it.ok then 1 else -1) else none
 
 theorem C10_greenDb_is_sticky_cell (it : Item) (node : Name) (sticky : Bool) (mem : Val) :
     calcGreenDb it node sticky mem = stickyStep sticky mem (greenDbEvent it node) := by
   unfold calcGreenDb greenDbEvent stickyStep
-  by_cases h : it.request = dbClientRequest node
+  by_cases h : it.requestIs (dbClientRequest node) = true
   · simp [h]
   · cases sticky <;> simp [h]
 
-/-- qualifying event of `WebpageUnavailablePenalty` (as repaired): the agent's latest request is the web-browser execute
-on the configured node (fresh value from the response status and the browser's last outcome); a browser that is
-absent from the state also resets the cell to 0 -/
-def webpageEvent (s : SimState) (it : Item) (node : Name) : Option Val :=
-  if it.request = browserRequest node then some (webpageFresh (s.browsers.lookup node) it)
-  else if (s.browsers.lookup node).isNone then some 0 else none
+/-- qualifying event of `WebpageUnavailablePenalty` (as repaired), given the leaf `access state location_in_state` and the
+value the recomputation yields when it does not raise: the agent's latest request is the web-browser execute on the
+configured node; a browser that is absent from the state also resets the cell to 0 -/
+def webpageEvent (leaf : PyVal) (it : Item) (node : Name) (fresh : Val) : Option Val :=
+  if it.requestIs (browserRequest node) then some fresh
+  else if leaf.isNotPresent then some 0 else none
 
-theorem C10_webpage_is_sticky_cell (s : SimState) (it : Item) (node : Name) (sticky : Bool) (mem : Val) :
-    calcWebpage s it node sticky mem = stickyStep sticky mem (webpageEvent s it node) := by
-  unfold calcWebpage webpageEvent stickyStep
-  by_cases h : it.request = browserRequest node
-  · simp [h]
-  · cases hb : (s.browsers.lookup node).isNone <;> cases sticky <;> simp [h, hb]
+theorem C10_webpage_is_sticky_cell (s : SimState) (it : Item) (node : Name) (sticky : Bool) (mem : Val) (leaf : PyVal)
+    (hleaf : PyVal.access s (webpageLoc node) = .ok leaf) (fresh : Val)
+    (hfresh : it.requestIs (browserRequest node) = true → webpageFreshE leaf it = .ok fresh) :
+    calcWebpageE s it node sticky mem = .ok (stickyStep sticky mem (webpageEvent leaf it node fresh)) := by
+  unfold calcWebpageE webpageEvent stickyStep
+  rw [hleaf]
+  by_cases h : it.requestIs (browserRequest node) = true
+  · simp [h, hfresh h]
+  · cases hb : leaf.isNotPresent <;> cases sticky <;> simp [h, hb]
 
-/-- `WebServer404Penalty` while the service is present in the state: qualifying event = a non-empty
-`response_codes_this_timestep`; value and memory coincide and follow the cell -/
-def web404Event (codes : List Nat) : Option Val := if codes ≠ [] then some (codesReward codes) else none
+/-- `WebServer404Penalty` while the service is present in the state with a `response_codes_this_timestep` of an accepted
+shape: qualifying event = truthy codes; value and memory coincide and follow the cell -/
+def web404Event (codes : PyVal) (avg : Val) : Option Val := if codes.truthy then some avg else none
 
-theorem C10_web404_is_sticky_cell (s : SimState) (node service : Name) (sticky : Bool) (mem : Val) (codes : List Nat)
-    (hp : s.services.lookup (node, service) = some codes) :
-    calcWeb404 s node service sticky mem =
-      (stickyStep sticky mem (web404Event codes), stickyStep sticky mem (web404Event codes)) := by
-  unfold calcWeb404 web404Event stickyStep
-  rw [hp]
-  by_cases h : codes = []
+theorem C10_web404_is_sticky_cell (s : SimState) (node service : Name) (sticky : Bool) (mem : Val) (leaf codes : PyVal)
+    (hleaf : PyVal.access s (web404Loc node service) = .ok leaf) (hp : leaf.isNotPresent = false)
+    (hc : leaf.get "response_codes_this_timestep" = .ok codes) (avg : Val)
+    (havg : codes.truthy = true → PyVal.avgTable status2rewTable 0 codes = .ok avg) :
+    calcWeb404E s node service sticky mem =
+      .ok (stickyStep sticky mem (web404Event codes avg), stickyStep sticky mem (web404Event codes avg)) := by
+  unfold calcWeb404E web404Event stickyStep
+  rw [hleaf]
+  simp only [hp, Bool.false_eq_true, if_false, hc]
+  by_cases h : codes.truthy = true
+  · simp [h, havg h]
   · cases sticky <;> simp [h]
-  · simp [h]
 
 /-- … and while the service is absent from the state (not installed): the value is 0 and the memory is untouched -/
 theorem C10_web404_absent (s : SimState) (node service : Name) (sticky : Bool) (mem : Val)
-    (hp : s.services.lookup (node, service) = none) : calcWeb404 s node service sticky mem = (0, mem) := by
-  unfold calcWeb404; rw [hp]
+    (hp : PyVal.access s (web404Loc node service) = .ok .notPresent) : calcWeb404E s node service sticky mem = .ok (0, mem) := by
+  unfold calcWeb404E; rw [hp]; rfl
 
-/-- the three components' memories are threaded through the steps by `calcComp` exactly as the cells above:
+/-- the three components' memories are threaded through the steps by `calcCompE` exactly as the cells above:
 value returned = memory stored (for the two request-driven components always; for the 404 component when present) -/
 theorem C10_component_memory (s : SimState) (it : Item) (cur : Name → Val) :
-    (∀ n st m, calcComp s it cur (.greenDb n st m) =
-        (stickyStep st m (greenDbEvent it n), .greenDb n st (stickyStep st m (greenDbEvent it n)))) ∧
-    (∀ n st m, calcComp s it cur (.webpage n st m) =
-        (stickyStep st m (webpageEvent s it n), .webpage n st (stickyStep st m (webpageEvent s it n)))) ∧
-    (∀ n sv st m, calcComp s it cur (.web404 n sv st m) =
-        ((calcWeb404 s n sv st m).1, .web404 n sv st (calcWeb404 s n sv st m).2)) := by
+    (∀ n st m, calcCompE s it cur (.greenDb n st m) =
+        .ok (stickyStep st m (greenDbEvent it n), .greenDb n st (stickyStep st m (greenDbEvent it n)))) ∧
+    (∀ n st m v, calcWebpageE s it n st m = .ok v → calcCompE s it cur (.webpage n st m) = .ok (v, .webpage n st v)) ∧
+    (∀ n sv st m r, calcWeb404E s n sv st m = .ok r → calcCompE s it cur (.web404 n sv st m) = .ok (r.1, .web404 n sv st r.2)) := by
   refine ⟨?_, ?_, ?_⟩
-  · intro n st m; simp [calcComp, C10_greenDb_is_sticky_cell]
-  · intro n st m; simp [calcComp, C10_webpage_is_sticky_cell]
-  · intro n sv st m; simp [calcComp]
+  · intro n st m; simp [calcCompE, C10_greenDb_is_sticky_cell]
+  · intro n st m v h; simp [calcCompE, h, Except.map]
+  · intro n sv st m r h; simp [calcCompE, h, Except.map]
 
 /-- F-18, the code before the repair: a non-sticky `WebpageUnavailablePenalty` that showed 1.0 does *not* return to 0 on a
 step without a new request — it re-reads the browser's last outcome (stays 1.0), and turns −1.0 when the unrelated action
 of that step fails. (Witness replayed on the implementation by corpus/C10/f18_0.json.) -/
 theorem C10_F18_asWritten_counterexample :
-    let s : SimState := { browsers := [("pc1", [.code 200])] }
-    calcWebpageAsWritten s { action := "do-nothing", request := ["do-nothing"], ok := true } "pc1" false 1 = 1 ∧
-    calcWebpageAsWritten s { action := "x", request := ["network", "node", "pc2", "service", "dns-server", "stop"], ok := false }
-      "pc1" false 1 = -1 ∧
-    calcWebpage s { action := "do-nothing", request := ["do-nothing"], ok := true } "pc1" false 1 = 0 := by
+    let s : SimState := .dict [(.str "network", .dict [(.str "nodes", .dict [(.str "pc1", .dict [(.str "applications",
+      .dict [(.str "web-browser", .dict [(.str "history", .list [.dict [(.str "url", .str "http://x"), (.str "outcome", .int 200)]])])])])])])]
+    let idle : Item := { action := "do-nothing", request := .list [.str "do-nothing"], status := "success" }
+    let failing : Item := { action := "x", request := .list [.str "network", .str "node", .str "pc2", .str "service",
+      .str "dns-server", .str "stop"], status := "failure" }
+    (calcWebpageAsWrittenE s idle "pc1" false 1).toOption = some 1 ∧
+    (calcWebpageAsWrittenE s failing "pc1" false 1).toOption = some (-1) ∧
+    (calcWebpageE s idle "pc1" false 1).toOption = some 0 := by
   decide
 
-/-! ## 6. Translator tie: the regenerated tables agree with the model -/
+/-! ## 6. Translator tie: the regenerated tables agree with the model
+(the semantic tie of the seven `calculate` bodies is in Props/C10Calc.lean) -/
 
-/-- the literal request paths the two request-driven components compare against -/
-theorem C10_gen_request_paths :
-    Gen.Reward.webpageRequest "N" = browserRequest "N" ∧ Gen.Reward.greenDbRequest "N" = dbClientRequest "N" := by
-  decide
-
-/-- `ActionPenalty` compares the latest action with the literal the model uses -/
-theorem C10_gen_do_nothing :
-    (calcComp {} { action := Gen.Reward.actionPenaltyDoNothing, request := [], ok := true } (fun _ => 0)
-      (.actionPenalty 1 2)).1 = 2 := by
-  decide
-
-/-- `status2rew`, file-health and outcome tables -/
-theorem C10_gen_value_tables :
-    (Gen.Reward.status2rew.all (fun p => status2rew p.1 == p.2) = true) ∧
-    Gen.Reward.status2rewDefault = status2rew 0 ∧
-    (Gen.Reward.fileHealth.all (fun p => calcFile { files := [(("n", "fo", "fi"), p.1)] } "n" "fo" "fi" == p.2) = true) ∧
-    Gen.Reward.fileHealthDefault = calcFile { files := [(("n", "fo", "fi"), 0)] } "n" "fo" "fi" ∧
-    Gen.Reward.outcomePending = outcomeReward .pending ∧ Gen.Reward.outcome200 = outcomeReward (.code 200) ∧
-    Gen.Reward.outcomeElse = outcomeReward .other ∧ Gen.Reward.outcomeElse = outcomeReward (.code 404) := by
-  decide
-
-/-- shape facts of the code the models rely on (each is recomputed from the source on every run) -/
-theorem C10_gen_shape :
+/-- literal defaults the model and the driver use: sticky flags, initial memories, `ActionPenalty`'s penalties, the start
+values of `current_reward` / `total_reward`, and the registry of component types (a new registered component class is a
+component the model does not know) -/
+theorem C10_gen_defaults :
     Gen.Reward.stickyDefaults = [("WebServer404Penalty", true), ("WebpageUnavailablePenalty", true),
                                  ("GreenAdminDatabaseUnreachablePenalty", true)] ∧
-    Gen.Reward.updateIsWeightedLeftFold = true ∧
-    Gen.Reward.updateAgentsCalls = ["update_reward", "save_reward_to_history", "update_observation", "total+=current"] ∧
-    Gen.Reward.updateAgentsIteratesOrder = true ∧ Gen.Reward.rewardGuardedByStepCounter = true ∧
-    Gen.Reward.setupRaisesOnCycle = true ∧ Gen.Reward.setupOrderIsTopoSort = true ∧
-    Gen.Reward.setupCallbackReadsCurrentReward = true ∧
-    Gen.Reward.webpageNonStickyResets = true ∧
-    Gen.Reward.topoSortIsPostOrder = true ∧ Gen.Reward.cycleSearchShape = true ∧
-    Gen.Reward.componentTypes = ["dummy", "database-file-integrity", "web-server-404-penalty",
-      "webpage-unavailable-penalty", "green-admin-database-unreachable-penalty", "shared-reward", "action-penalty"] := by
+    Gen.Reward.memoryDefaults.all (fun p => p.2 == 0) = true ∧
+    Gen.Reward.actionPenaltyDefaults = [("action_penalty", -1), ("do_nothing_penalty", 0)] ∧
+    Gen.Reward.rewardStarts = [("current_reward", ({ comps := [] } : Agent).current), ("total_reward", ({ comps := [] } : Agent).total)] ∧
+    Gen.Reward.componentTypes = [("DummyReward", "dummy"), ("DatabaseFileIntegrity", "database-file-integrity"),
+      ("WebServer404Penalty", "web-server-404-penalty"), ("WebpageUnavailablePenalty", "webpage-unavailable-penalty"),
+      ("GreenAdminDatabaseUnreachablePenalty", "green-admin-database-unreachable-penalty"), ("SharedReward", "shared-reward"),
+      ("ActionPenalty", "action-penalty")] := by
+  decide
+
+/-- text-shape flags of the functions the models transcribe by hand (each recomputed from the source on every run;
+deliberately blunt — the semantic ties of these functions are the differential rigs) -/
+theorem C10_gen_shape :
+    Gen.Reward.updateIsWeightedLeftFold = true ∧ Gen.Reward.updateAgentsShape = true ∧
+    Gen.Reward.agentRewardPlumbing = true ∧ Gen.Reward.setupRewardSharingShape = true ∧
+    Gen.Reward.accessFromNestedDictShape = true := by
+  decide
+
+/-- the two graph functions of science.py are text-identical to the shapes Model/RewardGraph.lean transcribes (their semantic
+tie is the bounded-exhaustive differential of the rig: every graph on ≤ 4 nodes, self-loops and repeated neighbours included) -/
+theorem C10_gen_shape_graph : Gen.Reward.topoSortIsPostOrder = true ∧ Gen.Reward.cycleSearchShape = true := by
   decide
 
 /-- a component whose configuration omits `weight` is registered with the model's default, and `RewardFunction.__init__`
 passes the configured weight to `register_component` unchanged -/
 theorem C10_gen_default_weight :
-    Gen.Reward.defaultWeight = defaultWeight ∧ Gen.Reward.registerDefaultWeight = defaultWeight ∧
+    Gen.Reward.defaultWeight = some defaultWeight ∧ Gen.Reward.registerDefaultWeight = some defaultWeight ∧
     Gen.Reward.weightPassedUnchanged = true := by
   decide
 
@@ -528,10 +528,12 @@ example : (match fromConfig id (exCfgs ++ [{ ref := "g1", comps := [(.shared "bl
 blue acts; blue's reward uses g1's and g2's rewards *of this step*: 1·(−1/4) + 1/2·(−1/16) + 1·(−1) -/
 example :
     ((fromConfig id exCfgs).toOption.bind (fun g =>
-      (gameStep g (fun n => if n = "g1" then { action := "x", request := dbClientRequest "pc1", ok := true }
-                            else if n = "blue" then { action := "y", request := ["y"], ok := true }
-                            else { action := "do-nothing", request := ["do-nothing"], ok := true })
-        { services := [(("srv", "web-server"), [404, 404])], browsers := [("pc2", [])] }).toOption)).map
+      (gameStepE g (fun n => if n = "g1" then { action := "x", request := PyVal.strs (dbClientRequest "pc1"), status := "success" }
+                            else if n = "blue" then { action := "y", request := .list [.str "y"], status := "success" }
+                            else { action := "do-nothing", request := .list [.str "do-nothing"], status := "success" })
+        (.dict [(.str "network", .dict [(.str "nodes", .dict [
+          (.str "srv", .dict [(.str "services", .dict [(.str "web-server", .dict [(.str "response_codes_this_timestep", .list [.int 404, .int 404])])])]),
+          (.str "pc2", .dict [(.str "applications", .dict [(.str "web-browser", .dict [(.str "history", .list [])])])])])])])).toOption)).map
       (fun g => g.agents.map (fun p => (p.1, p.2.current)))
       = some [("blue", -41/32), ("g2", -1/16), ("g1", -1/4)] := by decide +kernel
 
